@@ -439,6 +439,16 @@ func (w *World) Exec(op Op) *Event {
 		return w.emit("sync", nil, nil)
 	case "malformed":
 		return w.opMalformed(op)
+	case "replay":
+		return w.opReplay(op)
+	case "keyshape":
+		shape := "not-run"
+		err, pan, msg := w.guard(func() error {
+			shape = w.KeysShape()
+			return nil
+		})
+		r := finish(map[string]any{"shape": shape}, err, pan, msg)
+		return w.emit("keyshape", nil, r)
 	}
 	panic("unknown op " + op.Op)
 }
@@ -463,7 +473,7 @@ func (w *World) opMintQuote(op Op) *Event {
 	w.announce("mintquote", map[string]any{"amt": int(amt % (1 << 30)), "big": "", "lock": lock, "unit": unit})
 	err, pan, msg := w.guard(func() error {
 		var e error
-		q, e = w.Mint.RequestMintQuote(req)
+		q, e = w.API().RequestMintQuote(req)
 		return e
 	})
 	a, bg, _ := amtFacts(amt)
@@ -534,7 +544,7 @@ func (w *World) opPollMint(op Op) *Event {
 	var q storage.MintQuote
 	err, pan, msg := w.guard(func() error {
 		var e error
-		q, e = w.Mint.GetMintQuoteState(real)
+		q, e = w.API().GetMintQuoteState(real)
 		return e
 	})
 	w.Node.InvoiceStatusErr = false
@@ -609,7 +619,7 @@ func (w *World) opMint(op Op) *Event {
 	w.announce("mint", map[string]any{"q": op.Q, "outs": facts, "ovf": ovf, "sig": sigClass, "lnerr": op.LnErr})
 	err, pan, msg := w.guard(func() error {
 		var e error
-		sigs, e = w.Mint.MintTokens(req)
+		sigs, e = w.API().MintTokens(req)
 		return e
 	})
 	w.Node.InvoiceStatusErr = false
@@ -638,7 +648,7 @@ func (w *World) opSwap(op Op) *Event {
 	w.announce("swap", map[string]any{"ins": inFacts, "outs": outFacts, "ovf": ovf})
 	err, pan, msg := w.guard(func() error {
 		var e error
-		sigs, e = w.Mint.Swap(proofs, msgs)
+		sigs, e = w.API().Swap(proofs, msgs)
 		return e
 	})
 	r := finish(map[string]any{"sigs": []any{}}, err, pan, msg)
@@ -687,7 +697,7 @@ func (w *World) opMeltQuote(op Op) *Event {
 	var q storage.MeltQuote
 	err, pan, msg := w.guard(func() error {
 		var e error
-		q, e = w.Mint.RequestMeltQuote(req)
+		q, e = w.API().RequestMeltQuote(req)
 		return e
 	})
 	id := fmt.Sprintf("lq%d", len(w.Reg.MeltQ)+1)
@@ -722,7 +732,7 @@ func (w *World) opMelt(op Op) *Event {
 	w.announce("melt", map[string]any{"q": op.Q, "ins": inFacts, "lnerr": op.LnErr})
 	err, pan, msg := w.guard(func() error {
 		var e error
-		q, e = w.Mint.MeltTokens(context.Background(), nut05.PostMeltBolt11Request{Quote: real, Inputs: proofs})
+		q, e = w.API().MeltTokens(context.Background(), nut05.PostMeltBolt11Request{Quote: real, Inputs: proofs})
 		return e
 	})
 	w.Node.InvoiceStatusErr = false
@@ -758,7 +768,7 @@ func (w *World) opPollMelt(op Op) *Event {
 	w.announce("pollmelt", map[string]any{"q": op.Q})
 	err, pan, msg := w.guard(func() error {
 		var e error
-		q, e = w.Mint.GetMeltQuoteState(context.Background(), real)
+		q, e = w.API().GetMeltQuoteState(context.Background(), real)
 		return e
 	})
 	r := finish(map[string]any{"st": "", "pre": "none"}, err, pan, msg)
@@ -810,7 +820,7 @@ func (w *World) opCheckState(op Op) *Event {
 	var states []map[string]any
 	w.announce("checkstate", map[string]any{"ys": facts})
 	err, pan, msg := w.guard(func() error {
-		res, e := w.Mint.ProofsStateCheck(ys)
+		res, e := w.API().ProofsStateCheck(ys)
 		if e != nil {
 			return e
 		}
@@ -864,7 +874,7 @@ func (w *World) opRestore(op Op) *Event {
 	}
 	var outs, sigs []any
 	err, pan, msg := w.guard(func() error {
-		ro, rs, e := w.Mint.RestoreSignatures(msgs)
+		ro, rs, e := w.API().RestoreSignatures(msgs)
 		if e != nil {
 			return e
 		}
@@ -1005,4 +1015,42 @@ func PaymentHashOf(request string) (string, error) {
 		return "", err
 	}
 	return b.PaymentHash, nil
+}
+
+// opReplay: NUT-19. Variants of re-sending the last successful (or failed) swap / mint request.
+func (w *World) opReplay(op Op) *Event {
+	variant := op.Kind
+	base := w.lastOKReq
+	if variant == "failed" {
+		base = w.lastFailedReq
+	}
+	if base == nil {
+		return w.emit("replay", map[string]any{"variant": variant, "skipped": true, "path": ""},
+			map[string]any{"ok": true, "panic": false, "status": 0, "same": false, "dbcalls": 0, "code": 0, "detail": ""})
+	}
+	method, path, body := base.Method, base.Path, base.Req
+	switch variant {
+	case "onebyte":
+		body = strings.Replace(body, "{", "{ ", 1)
+	case "otherpath":
+		if path == "/v1/swap" {
+			path = "/v1/mint/bolt11"
+		} else {
+			path = "/v1/swap"
+		}
+	case "trailing":
+		body = body + " "
+	}
+	w.DB.TakeLog()
+	status, resp, pan, msg := w.HTTPDo(method, path, body)
+	calls := len(w.DB.TakeLog())
+	code := 0
+	var er struct {
+		Code *int `json:"code"`
+	}
+	if json.Unmarshal([]byte(resp), &er) == nil && er.Code != nil {
+		code = *er.Code
+	}
+	r := map[string]any{"ok": status == 200 && !pan, "panic": pan, "status": status, "same": resp == base.Resp, "dbcalls": calls, "code": code, "detail": msg}
+	return w.emit("replay", map[string]any{"variant": variant, "skipped": false, "path": base.Path}, r)
 }
